@@ -1,7 +1,7 @@
 #!/usr/bin/env python3
-# tools/mkmeta3.py <before-dir> <after-dir> <verify-dir> : writes seeded/Cxx-R3?/meta.json for the round-3 seeds
+# tools/mkmeta3.py <before-dir> <after-dir> <verify-dir> : writes seeded/Cxx-R'+RND+'?/meta.json for the round-3 seeds
 import json, os, re, sys, glob
-before, after, ver = sys.argv[1:4]
+RND, before, after, ver = sys.argv[1:5]
 def verdict(path):
     if not os.path.exists(path): return None
     t = open(path).read()
@@ -10,14 +10,14 @@ def verdict(path):
     if 'BROKEN' in t: return {"verdict": "check ended as BROKEN-CHECK (too little observed)"}
     if 'HELD' in t: return {"verdict": "not detected (check held)"}
     return {"verdict": "no result", "raw": t[:300]}
-for d in sorted(glob.glob('/verif/seeded/*-R3?')):
+for d in sorted(glob.glob('/verif/seeded/*-R'+RND+'?')):
     sid = os.path.basename(d)
     am = {}
     try: am = json.load(open(d + '/agent_meta.json'))
     except Exception: pass
     v = open(f'{ver}/{sid}.verify.txt').read() if os.path.exists(f'{ver}/{sid}.verify.txt') else ''
     meta = {
-        "seed": sid, "round": 3, "property": sid.split('-')[0],
+        "seed": sid, "round": int(RND), "property": sid.split('-')[0],
         "summary": am.get("summary", ""), "needs_to_manifest": am.get("needs_to_manifest", ""),
         "files_changed": am.get("files_changed", []),
         "confirmed_by_me": {
@@ -25,10 +25,10 @@ for d in sorted(glob.glob('/verif/seeded/*-R3?')):
             "pinned_suite_passes_with_patch": "suite-exit=0" in v,
             "demonstration_passes_clean_fails_patched": next((l for l in v.splitlines() if l.startswith("DEMO-OK")), "NOT CONFIRMED"),
         },
-        "check_result_quick_tier": {"before_round_3_strengthening": verdict(f'{before}/{sid}.txt'), "current": verdict(f'{after}/{sid}.txt')},
+        "check_result_quick_tier": {"before_strengthening_of_this_round": verdict(f'{before}/{sid}.txt'), "current": verdict(f'{after}/{sid}.txt')},
         "agent_verified": am.get("verified", am.get("agent_verified", "")),
     }
     extra = f'{d}/note.txt'
     if os.path.exists(extra): meta["note"] = open(extra).read().strip()
     json.dump(meta, open(d + '/meta.json', 'w'), indent=1)
-    print(sid, meta["check_result_quick_tier"]["before_round_3_strengthening"] and meta["check_result_quick_tier"]["before_round_3_strengthening"]["verdict"], '->', meta["check_result_quick_tier"]["current"] and meta["check_result_quick_tier"]["current"]["verdict"])
+    print(sid, meta["check_result_quick_tier"]["before_strengthening_of_this_round"] and meta["check_result_quick_tier"]["before_strengthening_of_this_round"]["verdict"], '->', meta["check_result_quick_tier"]["current"] and meta["check_result_quick_tier"]["current"]["verdict"])
